@@ -194,6 +194,13 @@ func init() {
 		Rule: "GenScopes.tla: every nesting up to MaxDepth of {for, user-function call, partial, contentFor/contentOf with data, block helper with own context} x {the construct itself binds the outer name x, a let in its body binds x}; every level binds a fresh name y_i and probes x and an outer-only name t inside, and x and y_i after the level ends. TLC checks ScopeTheorem (stack depth restored, top scope's x and t unchanged, no y_i leaked) and ProbeTheorem (probe text = declarative expectation) on the reference semantics; real plush must render the same probe output. Direction 2: the context constructions/writes the real evaluator performs while rendering these programs are recorded by the verif hooks and validated by TLC against ContextTrace.tla. distinct_nontrivial = distinct nesting shapes.",
 	})
 	registerSem(semSpec{
+		ID: "C01", Module: "GenRoutes", CheckLog: false,
+		Quick:    []semRun{{Cfg: "GenRoutes.quick.cfg", Workers: 8}},
+		Thorough: []semRun{{Cfg: "GenRoutes.thorough.cfg", Workers: 12}},
+		Rule: "GenRoutes.tla: 5 payloads (specials, entity text, multi-byte, seeded PLAIN/MB classes) x 15 places the payload starts (string literal, back-quoted literal, context string, template.HTML, HTMLer, raw() of literal / variable, struct field (string / HTML), map element, []string / []interface{} element, helper result, whole []string / []interface{}) x sequences of <= MaxSteps of 10 plumbing steps (let, \"\" + x, x + \"\", array wrap + index, array wrap emitted whole, hash wrap + index, identity user function, emitting user function, Go identity helper, parentheses) x 14 sinks (top level, loop variable, if / else body, function body, function call in a loop, block helper with caller's / own context, contentFor+contentOf, contentOf data, contentOf default block, partial data, nested partial, layout yield). TLC checks TaintTheorem on the reference semantics (data never contributes a raw < > ' \"; trusted HTML appears verbatim exactly once). Real-code oracle: where the payload was data each of < > & ' \" must appear as an HTML entity (any spelling), where it was trusted HTML the bytes must appear verbatim exactly once, all surrounding literal text byte for byte. distinct_nontrivial = distinct (start, steps, sink) routes with a specified outcome.",
+		Assume: []string{"a string concatenated with trusted HTML, a fmt.Stringer, and a block helper that returns `string` are outside the property's quantifier (not generated or unspecified)"},
+	})
+	registerSem(semSpec{
 		ID: "C05", Module: "GenFaults", CheckLog: true,
 		Quick:    []semRun{{Cfg: "GenFaults.quick.cfg", Workers: 8}},
 		Thorough: []semRun{{Cfg: "GenFaults.thorough.cfg", Workers: 12}},
